@@ -68,7 +68,7 @@ Record prog := mkProg {
   ptdm : option tdm }.
 
 (* error kinds (Python exception classes) *)
-Inductive err := ENameError | ETypeError | EValueError | EIndexError.
+Inductive err := ENameError | ETypeError | EValueError | EIndexError | EAttributeError.
 Inductive res (A : Type) := Ok (a : A) | Err (e : err).
 Arguments Ok {A} a. Arguments Err {A} e.
 
@@ -247,12 +247,13 @@ Definition bb_roundtrip (p : prog) : res prog := bind (to_bb p) from_bb.
 Record xstmt := mkX {
   xname : opclass; xlist : list val;                 (* positional parameters (non-measurements) *)
   xphi : option val; xsel : option val; xdark : option val;   (* dictionary parameters (measurements) *)
-  xwires : list nat }.
+  xwires : list nat;
+  xinv : bool }.                                     (* the statement's `inv` modifier *)
 
 Record xprog := mkXp {
   xtype_tdm : option (list nat * list Z);            (* options _type_ = tdm, N ; constants p0.. *)
   xtarget : option nat;                              (* option key "target" *)
-  xtarget_us : option nat;                           (* option key "_target_" (never written) *)
+  xtarget_us : option nat;                           (* option key "_target_" (never written by to_xir) *)
   xcutoff : option Z; xshots : option Z;
   xstmts : list xstmt }.
 
@@ -278,8 +279,9 @@ Definition to_xir_cmd (nvars : nat) (c : cmd) : xstmt :=
                                              then (match e with EAtom (AFree n) => VStr (SName n) | _ => a end) else a
                                  | _ => a end)
                end in
-    mkX (cls c) [] phi (sel c) (match cls c with OMeas MFock => dark c | _ => None end) (modes c)
-  else mkX (cls c) (map xir_conv_param (params c)) None None None (modes c).
+    (* getattr(cmd.op, "dagger", False): measurements have no dagger attribute *)
+    mkX (cls c) [] phi (sel c) (match cls c with OMeas MFock => dark c | _ => None end) (modes c) false
+  else mkX (cls c) (map xir_conv_param (params c)) None None None (modes c) (dag c).
 
 Definition to_xir (p : prog) : xprog :=
   let nvars := match ptdm p with Some t => length (tarrays t) | None => 0 end in
@@ -311,13 +313,24 @@ Definition construct_meas_kw (c : opclass) (phi ksel kdark : option val) (ms : l
   | _ => Err ETypeError
   end.
 
+(* xir_io._apply: the constructed operation, or its .H when the statement carries `inv`;
+   only Gate subclasses have .H (measurements raise AttributeError) *)
+Definition apply_inv (s : xstmt) (r : res cmd) : res cmd :=
+  bind r (fun c =>
+    if xinv s then
+      match cls c with
+      | OMeas _ => Err EAttributeError
+      | _ => Ok (mkCmd (cls c) (params c) (modes c) true (sel c) (dark c))
+      end
+    else Ok c).
+
 Definition has_dict (s : xstmt) : bool :=
   match xphi s, xsel s, xdark s with None, None, None => false | _, _, _ => true end.
 
 Definition from_xir_stmt (s : xstmt) : res cmd :=
   match xname s with
   | OMeta _ => Err ENameError
-  | _ =>
+  | _ => apply_inv s (
     if has_dict s then
       bind (optM par_convert1 (xphi s)) (fun phi =>
       bind (optM par_convert1 (xsel s)) (fun ksel =>
@@ -332,7 +345,7 @@ Definition from_xir_stmt (s : xstmt) : res cmd :=
          | l => bind (mapM from_xir_list_param l) (fun l1 =>
                 bind (mapM par_convert1 l1) (fun l2 =>
                 construct (xname s) l2 None None (xwires s)))
-         end
+         end)
   end.
 
 Fixpoint list_max (l : list nat) : nat := match l with [] => 0 | x :: l' => Nat.max x (list_max l') end.
@@ -344,11 +357,11 @@ Definition from_xir_plain (x : xprog) : res prog :=
   | [] => Err EValueError                                 (* "The XIR program is empty" *)
   | ws =>
     bind (mapM from_xir_stmt (xstmts x)) (fun cs =>
-    Ok (mkProg (list_max ws + 1) (xtarget_us x) (xshots x) (xcutoff x) cs None))
+    Ok (mkProg (list_max ws + 1) (match xtarget_us x with Some t => Some t | None => xtarget x end)
+               (xshots x) (xcutoff x) cs None))
   end.
 
-(* from_xir_to_tdm: dictionary values are tested with is_ptype, which calls len() on them:
-   a numeric value raises TypeError; a p-type string becomes the loop variable *)
+(* from_xir_to_tdm: a dictionary value that is a str and p-type becomes the loop variable; anything else is kept *)
 Definition loop_var (nvars : nat) (n : name) (v : val) : res val :=
   match n with
   | NP i => if Nat.ltb i nvars then Ok (VSym (EAtom (AFree n))) else Err EIndexError   (* p[int(val[1:])] *)
@@ -357,12 +370,8 @@ Definition loop_var (nvars : nat) (n : name) (v : val) : res val :=
 
 Definition tdm_dict_val (nvars : nat) (v : val) : res val :=
   match v with
-  | VNum _ => Err ETypeError
-  | VSeq _ => Ok v                  (* len() works; its first element is not "p" *)
   | VStr (SName n) => loop_var nvars n v
-  | VStr _ => Ok v
-  | VSym _ => Err ETypeError        (* len() of a sympy expression *)
-  | VRRT _ => Err ETypeError
+  | _ => Ok v
   end.
 
 Definition tdm_list_val (nvars : nat) (v : val) : res val :=
@@ -374,7 +383,7 @@ Definition tdm_list_val (nvars : nat) (v : val) : res val :=
 Definition from_xir_stmt_tdm (nvars : nat) (s : xstmt) : res cmd :=
   match xname s with
   | OMeta _ => Err ENameError
-  | _ =>
+  | _ => apply_inv s (
     if has_dict s then
       bind (optM par_convert1 (xphi s)) (fun phi0 =>
       bind (optM par_convert1 (xsel s)) (fun ksel0 =>
@@ -391,7 +400,7 @@ Definition from_xir_stmt_tdm (nvars : nat) (s : xstmt) : res cmd :=
          | l => bind (mapM (tdm_list_val nvars) l) (fun l1 =>
                 bind (mapM par_convert1 l1) (fun l2 =>
                 construct (xname s) l2 None None (xwires s)))
-         end
+         end)
   end.
 
 Fixpoint list_sum (l : list nat) : nat := match l with [] => 0 | x :: l' => x + list_sum l' end.
@@ -404,7 +413,8 @@ Definition from_xir (x : xprog) : res prog :=
       | [] => Err EValueError
       | _ =>
         bind (mapM (from_xir_stmt_tdm (length arrays)) (xstmts x)) (fun cs =>
-        Ok (mkProg (list_sum N) (xtarget x) (xshots x) None cs (Some (mkTdm N arrays None))))
+        Ok (mkProg (list_sum N) (match xtarget x with Some t => Some t | None => xtarget_us x end)
+                   (xshots x) (xcutoff x) cs (Some (mkTdm N arrays None))))
       end
   end.
 
